@@ -112,6 +112,16 @@ def _collected(f: Func, name: str) -> Set[str]:
     return out
 
 
+def _collected_expr(f: Func, e: ast.AST) -> Set[str]:
+    """The same for a list given either through a local name or written in place as a comprehension."""
+    if isinstance(e, ast.Name):
+        return _collected(f, e.id)
+    if isinstance(e, ast.ListComp):
+        x = _StripDtype().visit(copy.deepcopy(expand_locals(e.elt, f, 4)))
+        return {norm(x)}
+    return set()
+
+
 def _pairs(repo: Repo) -> List[Tuple[Func, Func]]:
     em = repo.func(COO_FILE, "em_update_matrix")
     out = []
@@ -132,9 +142,9 @@ def r11_3(repo: Repo) -> RuleResult:
         # EM side: the lists are whatever is handed to em_update_matrix as `windows` / `kernels`
         calls = [c for c in repo.calls_in(e) if em in repo.resolve_call(e, c)]
         bound = repo.bind_args(em, calls[0])
-        if not (isinstance(bound.get("windows"), ast.Name) and isinstance(bound.get("kernels"), ast.Name)):
-            raise AnalysisError("R11.3: em_update_matrix is not given its windows / kernels as local lists in %s" % e.key)
-        e_win, e_ker = bound["windows"].id, bound["kernels"].id
+        if not all(isinstance(bound.get(k), (ast.Name, ast.ListComp)) for k in ("windows", "kernels")):
+            raise AnalysisError("R11.3: em_update_matrix is not given its windows / kernels as lists built in %s" % e.key)
+        e_win, e_ker = bound["windows"], bound["kernels"]
         # build side: the loop `for i, w in enumerate(<windows>)` that appends, and the list indexed by i inside it
         b_win = b_ker = None
         from .common import parents_map, ancestors
@@ -156,8 +166,8 @@ def r11_3(repo: Repo) -> RuleResult:
                                 b_ker = b_ker or n.value.id
         if b_win is None or b_ker is None:
             raise AnalysisError("R11.3: windows / kernels lists of the build kernel %s not recognised" % b.key)
-        wb, we = _collected(b, b_win), _collected(e, e_win)
-        kb, ke = _collected(b, b_ker), _collected(e, e_ker)
+        wb, we = _collected(b, b_win), _collected_expr(e, e_win)
+        kb, ke = _collected(b, b_ker), _collected_expr(e, e_ker)
         if wb != we:
             problems.append("windows differ: build %s vs EM %s" % (sorted(wb), sorted(we)))
         if kb != ke:
